@@ -573,10 +573,38 @@ type FuncResult struct {
 	Contract *Contract
 	Ctx      *Ctx
 	Err      string
+	nCases   int
+	extra    []*Obligation
 }
 
 // verifyFunction generates the obligations of one function under contract.
-func (w *World) verifyFunction(ct *Contract) (res *FuncResult) {
+// verifyFunction generates the obligations of a function under contract. With
+// case splitting (contract `case` clauses or a property hook) the body is
+// executed once per case under the case condition, with dead branches pruned;
+// an extra obligation shows the cases are exhaustive.
+func (w *World) verifyFunction(ct *Contract) *FuncResult {
+	first := w.verifyCase(ct, 0)
+	if first.Err != "" || first.nCases <= 1 {
+		return first
+	}
+	for k := 1; k < first.nCases; k++ {
+		r := w.verifyCase(ct, k)
+		if r.Err != "" {
+			first.Err = r.Err
+			return first
+		}
+		first.Ctx.notes = append(first.Ctx.notes, r.Ctx.notes...)
+		first.extra = append(first.extra, r.Ctx.obls...)
+	}
+	return first
+}
+
+type namedCase struct {
+	name string
+	cond Term
+}
+
+func (w *World) verifyCase(ct *Contract, caseIdx int) (res *FuncResult) {
 	c := NewCtx(w, ct.IntMode)
 	c.fn = ct.FullName()
 	c.property = ct.Property
@@ -618,6 +646,46 @@ func (w *World) verifyFunction(ct *Contract) (res *FuncResult) {
 	sc := &Scope{c: c, fr: f, st: st, old: st, vars: map[string]*Val{}, pkg: fn.Pkg}
 	for _, r := range ct.Requires {
 		c.Assume(TTrue, f.evalSpecBool(sc, r, "requires"), "requires "+r.Name)
+	}
+	// case splitting
+	var cases []namedCase
+	for i, cs := range ct.Extra["case"] {
+		name, src := splitLabel(cs)
+		if name == "" {
+			name = fmt.Sprintf("c%d", i)
+		}
+		e, err := parseExpr(src)
+		if err != nil {
+			panic(sfail("case %s: %v", name, err))
+		}
+		cases = append(cases, namedCase{name, sc.evalBool(e)})
+	}
+	for _, h := range w.caseHooks {
+		cases = append(cases, h(f, st, ct)...)
+	}
+	res.nCases = len(cases)
+	caseSuffix := ""
+	if len(cases) > 0 {
+		if caseIdx == 0 {
+			var all []Term
+			for _, cs := range cases {
+				all = append(all, cs.cond)
+			}
+			c.Oblige("cases", "exhaustive", TTrue, Or(all...), w.fset.Position(fn.Pos()), "the case split covers every input satisfying the precondition")
+		}
+		if caseIdx > 0 && !c.feasible(cases[caseIdx].cond) {
+			// the precondition excludes this case: nothing to prove
+			c.note("case %s is excluded by the precondition", cases[caseIdx].name)
+			c.obls = nil
+			return res
+		}
+		c.Assume(TTrue, cases[caseIdx].cond, "case "+cases[caseIdx].name)
+		caseSuffix = "@" + cases[caseIdx].name
+		c.caseSuffix = caseSuffix
+		c.prune = true
+		for _, h := range w.caseFactHooks {
+			h(f, st, ct, cases[caseIdx].name)
+		}
 	}
 	// vacuity guard: the precondition is satisfiable
 	c.Cover("requires", TTrue, w.fset.Position(fn.Pos()))
@@ -662,8 +730,10 @@ func (f *Frame) assumeInput(v *Val) {
 	case KScalar:
 		if v.T.Sort == SRef {
 			c.Assume(TTrue, And(ILt(RefRoot(v.T), lim), ILe(IntLitI(0), RefRoot(v.T))), "input reference is allocated")
+			c.oldRefs[v.T.S] = true
 		}
 	case KSlice:
+		c.oldRefs[v.Base.S] = true
 		c.Assume(TTrue, And(ILt(RefRoot(v.Base), lim), ILe(IntLitI(0), RefRoot(v.Base))), "input slice is allocated")
 	case KIface:
 		c.Assume(TTrue, And(ILt(RefRoot(v.Pay), lim), ILe(IntLitI(0), RefRoot(v.Pay)), ILe(IntLitI(0), v.Tag)), "input interface payload is allocated")
@@ -742,6 +812,9 @@ func (f *Frame) frameObligations(rst *State, post *Scope, ct *Contract, pos inte
 				}
 			}
 			allowed = append(allowed, ILe(IntLitI(birthBase), RefRoot(r)))
+			_, inner := arrSorts(c.memSort[n])
+			_, evs := arrSorts(inner)
+			c.groundCopies(final, ix, evs)
 			c.Oblige("frame", n, rst.reach, Or(append(allowed, Eq(Select(Select(final, r), ix), Select(Select(init, r), ix)))...), p,
 				"elements of "+n+" outside the modifies clause are unchanged")
 			continue
